@@ -28,16 +28,32 @@ def main():
                 res['tests_pass_with_mutant'] = ('FAILED' not in out and 'failed;' in out and all(' 0 failed' in l for l in out.splitlines() if l.startswith('test result')))
                 rc, out = sh('cargo build --offline --features verif-hooks 2>&1 | tail -3')
                 res['builds_with_hooks'] = rc == 0 and 'error' not in out
+                shs = [f for f in demos if f.endswith('.sh')]
+                feat = ' --features verif-hooks' if 'features verif-hooks --test' in open(d + '/notes.md').read() else ''
+                if shs:
+                    # script-driven demo: expects itself under <worktree>/out/
+                    os.makedirs(WT + '/out', exist_ok=True)
+                    for f in demos:
+                        shutil.copy(f, WT + '/out/')
+                    rc, out = sh('bash out/%s 2>&1 | tail -30' % os.path.basename(shs[0]))
+                    res['demo_with_mutant_rc'] = rc
+                    res['demo_with_mutant_tail'] = out.strip().splitlines()[-6:]
+                    sh('git apply -R %s/patch.diff' % d)
+                    rc, out = sh('bash out/%s 2>&1 | tail -30' % os.path.basename(shs[0]))
+                    res['demo_without_mutant_rc'] = rc
+                    res['demo_without_mutant_tail'] = out.strip().splitlines()[-4:]
+                    shutil.rmtree(WT + '/out', ignore_errors=True)
+                    rs = []
                 for f in rs:
                     name = os.path.splitext(os.path.basename(f))[0].lower()
                     shutil.copy(f, WT + '/tests/%s.rs' % name)
                     for extra in glob.glob(d + '/*.py'):
                         shutil.copy(extra, WT + '/tests/')
-                    rc, out = sh('cargo test --offline --test %s 2>&1 | tail -30' % name)
+                    rc, out = sh('cargo test --offline%s --test %s 2>&1 | tail -30' % (feat, name))
                     res['demo_with_mutant_rc'] = rc
                     res['demo_with_mutant_tail'] = out.strip().splitlines()[-6:]
                     sh('git apply -R %s/patch.diff' % d)
-                    rc, out = sh('cargo test --offline --test %s 2>&1 | tail -30' % name)
+                    rc, out = sh('cargo test --offline%s --test %s 2>&1 | tail -30' % (feat, name))
                     res['demo_without_mutant_rc'] = rc
                     res['demo_without_mutant_tail'] = out.strip().splitlines()[-4:]
                     os.remove(WT + '/tests/%s.rs' % name)
